@@ -27,9 +27,11 @@ type Ext2Claims struct {
 	Extra *int64 `cbor:"-70000,keyasint,omitempty" json:"ext-extra,omitempty"`
 }
 
-func (o *Ext2Claims) Validate() error              { return psatoken.ValidateClaims(o) }
-func (o Ext2Claims) MarshalCBOR() ([]byte, error)  { return encoding.SerializeStructToCBOR(embEm, &o) }
-func (o *Ext2Claims) UnmarshalCBOR(d []byte) error { return encoding.PopulateStructFromCBOR(embDm, d, o) }
+func (o *Ext2Claims) Validate() error             { return psatoken.ValidateClaims(o) }
+func (o Ext2Claims) MarshalCBOR() ([]byte, error) { return encoding.SerializeStructToCBOR(embEm, &o) }
+func (o *Ext2Claims) UnmarshalCBOR(d []byte) error {
+	return encoding.PopulateStructFromCBOR(embDm, d, o)
+}
 func (o Ext2Claims) MarshalJSON() ([]byte, error)  { return encoding.SerializeStructToJSON(&o) }
 func (o *Ext2Claims) UnmarshalJSON(d []byte) error { return encoding.PopulateStructFromJSON(d, o) }
 
@@ -38,9 +40,11 @@ type Ext1Claims struct {
 	Extra *int64 `cbor:"-70001,keyasint,omitempty" json:"ext-extra,omitempty"`
 }
 
-func (o *Ext1Claims) Validate() error              { return psatoken.ValidateClaims(o) }
-func (o Ext1Claims) MarshalCBOR() ([]byte, error)  { return encoding.SerializeStructToCBOR(embEm, &o) }
-func (o *Ext1Claims) UnmarshalCBOR(d []byte) error { return encoding.PopulateStructFromCBOR(embDm, d, o) }
+func (o *Ext1Claims) Validate() error             { return psatoken.ValidateClaims(o) }
+func (o Ext1Claims) MarshalCBOR() ([]byte, error) { return encoding.SerializeStructToCBOR(embEm, &o) }
+func (o *Ext1Claims) UnmarshalCBOR(d []byte) error {
+	return encoding.PopulateStructFromCBOR(embDm, d, o)
+}
 func (o Ext1Claims) MarshalJSON() ([]byte, error)  { return encoding.SerializeStructToJSON(&o) }
 func (o *Ext1Claims) UnmarshalJSON(d []byte) error { return encoding.PopulateStructFromJSON(d, o) }
 
@@ -55,7 +59,7 @@ type extProfile struct {
 	mk   func() psatoken.IClaims
 }
 
-func (p extProfile) GetName() string            { return p.name }
+func (p extProfile) GetName() string             { return p.name }
 func (p extProfile) GetClaims() psatoken.IClaims { return p.mk() }
 
 func extName(i int) string { return "http://example.com/ext/" + strconv.Itoa(i) }
@@ -374,5 +378,13 @@ func genC07(tier string, seed uint64, emit func(string)) {
 	}
 	for i := 0; i < n; i++ {
 		emit("REG " + strings.Join(regOps(r, 6+r.intn(10), true), " "))
+	}
+	// dispatch must not depend on what the Evidence held before: tokens of both profiles decoded alternately into one Evidence
+	for i := 0; i < n; i++ {
+		c1, c2 := validClaims(1, r), validClaims(2, r)
+		k1, k2 := strconv.Itoa(1+r.intn(5)), strconv.Itoa(1+r.intn(5))
+		first := []string{"set:0", "set:1"}[r.intn(2)]
+		emit("EV 2 " + c1.String() + " " + c2.String() + " set:0 vsign:g" + k1 + " set:1 vsign:g" + k2 + " " + first +
+			" dec:t0 ver:" + k1 + " dec:t1 ver:" + k2 + " dec:t0 dec:t1 dec:t1 dec:t0 ver:" + k1)
 	}
 }
